@@ -277,7 +277,7 @@ impl Prop for SatObj {
             .boxed()
     }
     fn n_cases(&self, tier: Tier) -> u32 {
-        tier.pick(5_000, 120_000)
+        tier.pick(5_000, 60_000)
     }
     fn extra_phase(&self, tier: Tier, seed: u64, rec: &mut Rec) -> Result<(), (SatCase, Failure)> {
         let seeds: Vec<Vec<u8>> = (0..8u8).map(|k| (0..96u8).map(|i| i.wrapping_mul(29).wrapping_add(k.wrapping_mul(7))).collect()).collect();
